@@ -106,7 +106,9 @@ def run_kani(ws, crate, harnesses, *, jobs=8, harness_timeout=300, features=None
         # build (~90 s) + the harnesses in ceil(n/jobs) waves
         waves = (len(harnesses) + jobs - 1) // jobs
         total_timeout = 600 + waves * (harness_timeout + 30)
-    shell = "ulimit -v %d; exec %s" % (mem_gb * 1024 * 1024, " ".join("'%s'" % c for c in cmd))
+    env["PATH"] = os.path.join(os.path.dirname(os.path.dirname(os.path.abspath(__file__))), "tools", "bin") + ":" + env["PATH"]
+    env["VERIF_CBMC_MEM_KB"] = str(mem_gb * 1024 * 1024)
+    shell = "exec %s" % (" ".join("'%s'" % c for c in cmd))
     with open(log_path, "w") as lf:
         p = subprocess.Popen(["bash", "-c", shell], cwd=ws.ws, env=env, stdout=lf,
                              stderr=subprocess.STDOUT, start_new_session=True)
